@@ -167,8 +167,12 @@ func genOp(r *Rand, which int, id uint32, edge bool) OpCase {
 			coqs[i] = coqBytes(ips[i])
 		}
 		return simple("SetAddress", 0x96, fmt.Sprintf("SetAddress %d %s %s %s", id, coqs[0], coqs[1], coqs[2]), "", func(u uhppote.IUHPPOTE) string {
+			before := fmt.Sprintf("%v", ips)
 			res, err := u.SetAddress(id, ips[0], ips[1], ips[2])
 			render(res, err)
+			if after := fmt.Sprintf("%v", ips); after != before {
+				return "RPanic"
+			}
 			if err != nil {
 				return "RErr"
 			}
@@ -431,7 +435,14 @@ func genOp(r *Rand, which int, id uint32, edge bool) OpCase {
 		door, cards := genU8(r), genU8(r)
 		task := types.Task{Task: types.TaskType(tt), Door: door, From: from.date(), To: to.date(), Weekdays: w, Start: types.NewHHmm(h, m), Cards: cards}
 		coq := fmt.Sprintf("AddTask %d {| t_task := %s; t_door := %d; t_from := %s; t_to := %s; t_weekdays := %s; t_start := %s; t_cards := %d |}", id, zc(tt), door, date3(from.y, from.m, from.d), date3(to.y, to.m, to.d), wc, hm2(h, m), cards)
-		return simple("AddTask", 0xa8, coq, "AddTaskResponse", func(u uhppote.IUHPPOTE) string { return okBool(u.AddTask(id, task)) })
+		return simple("AddTask", 0xa8, coq, "AddTaskResponse", func(u uhppote.IUHPPOTE) string {
+			before := fmt.Sprintf("%v|%v|%v", task, len(task.Weekdays), task.Weekdays)
+			res := okBool(u.AddTask(id, task))
+			if after := fmt.Sprintf("%v|%v|%v", task, len(task.Weekdays), task.Weekdays); after != before {
+				return "RPanic" // argument modified (C17)
+			}
+			return res
+		})
 	case 20:
 		return simple("RefreshTaskList", 0xac, fmt.Sprintf("RefreshTaskList %d", id), "RefreshTaskListResponse", func(u uhppote.IUHPPOTE) string { return okBool(u.RefreshTaskList(id)) })
 	case 21:
@@ -517,7 +528,14 @@ func genOp(r *Rand, which int, id uint32, edge bool) OpCase {
 				}
 			}
 		}
-		return simple("ActivateKeypads", 0xa4, fmt.Sprintf("ActivateKeypads %d %s", id, boolMapCoq(readers, []uint8{1, 2, 3, 4, 0, 5})), "ActivateAccessKeypadsResponse", func(u uhppote.IUHPPOTE) string { return okBool(u.ActivateKeypads(id, readers)) })
+		return simple("ActivateKeypads", 0xa4, fmt.Sprintf("ActivateKeypads %d %s", id, boolMapCoq(readers, []uint8{1, 2, 3, 4, 0, 5})), "ActivateAccessKeypadsResponse", func(u uhppote.IUHPPOTE) string {
+			before := fmt.Sprintf("%v|%v", readers, readers == nil)
+			res := okBool(u.ActivateKeypads(id, readers))
+			if after := fmt.Sprintf("%v|%v", readers, readers == nil); after != before {
+				return "RPanic"
+			}
+			return res
+		})
 	default:
 		return simple("RestoreDefaultParameters", 0xc8, fmt.Sprintf("RestoreDefaultParameters %d", id), "RestoreDefaultParametersResponse", func(u uhppote.IUHPPOTE) string { return okBool(u.RestoreDefaultParameters(id)) })
 	}
@@ -527,8 +545,10 @@ const nOps = 31
 
 // C04: every value the API returns is rendered with %v and with encoding/json (a panic there is recovered by safeCall)
 var renderOn = false
+var lastValue any
 
 func render(v any, err error) {
+	lastValue = v
 	if !renderOn || err != nil {
 		return
 	}
